@@ -362,6 +362,16 @@ func c23Stream(rng *rand.Rand, n int, tier string, out string) (*Summary, error)
 		r = &gpb.SetRequest{Delete: []*gpb.Path{c22MustPath("/top/nest/b")}}
 		ns = []*gpb.Notification{{Update: []*gpb.Update{c22Upd("/top/nest/b", &gpb.TypedValue{Value: &gpb.TypedValue_IntVal{IntVal: 3}})}}}
 		run.one("single-edit/add/at-deleted-path", r, ns, "/top/nest/b", pkgs[0], false, nil)
+		// the root itself deleted / replaced (the empty path, with and without a prefix): every
+		// notification leaf the request does not write is extra
+		{
+			extra := []*gpb.Notification{{Update: []*gpb.Update{c22Upd("/top/nest/b", &gpb.TypedValue{Value: &gpb.TypedValue_IntVal{IntVal: 3}})}}}
+			run.one("single-edit/add/under-deleted", &gpb.SetRequest{Delete: []*gpb.Path{{}}}, extra, "/top/nest/b", pkgs[0], false, nil)
+			run.one("single-edit/add/under-deleted", &gpb.SetRequest{Prefix: &gpb.Path{}, Delete: []*gpb.Path{{}}}, extra, "/top/nest/b", pkgs[0], false, nil)
+			rr := &gpb.SetRequest{Replace: []*gpb.Update{{Path: &gpb.Path{}, Val: c22JS(`{"v-main:top":{"scalars":{"str":"a"}}}`)}}}
+			both := []*gpb.Notification{{Update: []*gpb.Update{c22Upd("/top/scalars/str", c22Str("a")), c22Upd("/top/nest/b", &gpb.TypedValue{Value: &gpb.TypedValue_IntVal{IntVal: 3}})}}}
+			run.one("single-edit/add/under-replaced", rr, both, "/top/nest/b", pkgs[0], false, nil)
+		}
 		// an empty leaf-list: [] in the request's JSON, a leaflist_val without elements in the
 		// notifications (ygot itself no longer emits one, other gNMI targets do)
 		emptyLL := &gpb.TypedValue{Value: &gpb.TypedValue_LeaflistVal{LeaflistVal: &gpb.ScalarArray{}}}
